@@ -187,7 +187,8 @@ pub const FRESH_SCENARIOS: [&str; 8] =
 pub enum Placement {
     None,
     Single(usize, Fault),
-    Sticky(usize),
+    /// (from step, errno): EMFILE on every descriptor-creating call, any other errno on every call that can report it
+    Sticky(usize, i32),
     Eagain(usize, usize),
     /// sparse random faults: (seed, per-mille per call)
     Random(u64, u64),
@@ -200,7 +201,7 @@ impl Placement {
         match self {
             Placement::None => json!(["none"]),
             Placement::Single(s, f) => json!(["single", s, Dec { step: *s, fault: Some(f.clone()), ..Default::default() }.to_json()["fault"]]),
-            Placement::Sticky(s) => json!(["sticky", s]),
+            Placement::Sticky(s, e) => json!(["sticky", s, sys::errname(*e)]),
             Placement::Eagain(i, k) => json!(["eagain", i, k]),
             Placement::Random(s, p) => json!(["random", s, p]),
             Placement::FdCap(n) => json!(["fdcap", n]),
@@ -212,7 +213,7 @@ impl Placement {
                 let d = Dec::from_json(&json!({"step": v[1], "fault": v[2]}));
                 Placement::Single(d.step, d.fault.unwrap_or(Fault::Errno(libc::EIO)))
             }
-            Some("sticky") => Placement::Sticky(v[1].as_u64().unwrap_or(0) as usize),
+            Some("sticky") => Placement::Sticky(v[1].as_u64().unwrap_or(0) as usize, v[2].as_str().and_then(sys::errnum).unwrap_or(libc::EMFILE)),
             Some("eagain") => Placement::Eagain(v[1].as_u64().unwrap_or(0) as usize, v[2].as_u64().unwrap_or(1) as usize),
             Some("random") => Placement::Random(v[1].as_u64().unwrap_or(0), v[2].as_u64().unwrap_or(20)),
             Some("fdcap") => Placement::FdCap(v[1].as_u64().unwrap_or(0) as usize),
@@ -224,7 +225,7 @@ impl Placement {
         match self {
             Placement::None => {}
             Placement::Single(s, f) => p.script.push(Dec { step: *s, fault: Some(f.clone()), ..Default::default() }),
-            Placement::Sticky(s) => p.sticky = Some((*s, libc::EMFILE)),
+            Placement::Sticky(s, e) => p.sticky = Some((*s, *e)),
             Placement::Eagain(i, k) => p.eagain = Some((*i, *k)),
             Placement::FdCap(n) => p.fd_cap = Some(*n),
             Placement::Random(seed, pm) => {
@@ -280,7 +281,16 @@ pub fn placements(out: &RunOut, target_op: usize) -> Vec<Placement> {
             v.push(Placement::Single(ev.step, f));
         }
         if is_fd_creating(ev.nr, &ev.args) {
-            v.push(Placement::Sticky(ev.step));
+            v.push(Placement::Sticky(ev.step, libc::EMFILE));
+        }
+        // a condition that persists from this call on: memory pressure, I/O errors. (Not EINTR: an
+        // interrupted call is retried without bound by convention - rustix's directory iterator does
+        // so for getdents64 - and an endless storm of signals is the environment's livelock, not a
+        // fault the call can be expected to survive.)
+        for e in [libc::ENOMEM, libc::EIO] {
+            if fault_catalogue(ev.nr).iter().any(|f| matches!(f, Fault::Errno(x) if *x == e)) {
+                v.push(Placement::Sticky(ev.step, e));
+            }
         }
         if ev.nr == libc::SYS_openat2 && !ev.config_refusal {
             for k in [1usize, 2, 15, 16, 17, 20] {
@@ -605,7 +615,7 @@ pub fn finalise(tier: &str, seed: u64, res: coord::CheckResult, placements_total
         tier,
         seed,
         "fault_enumeration",
-        "for every scenario (operation x world x facade) in a K and an E universe, warm and (for a subset) first-use: record the fault-free trace, then one run per (index of a trapped call inside the operation, errno of that call's fault catalogue), one run per descriptor-creating call with EMFILE sticky from there on, and k in {1,2,15,16,17,20} consecutive EAGAINs on every openat2; non-trivial = the placed fault actually fired; distinct = distinct (universe, scenario, placement)",
+        "for every scenario (operation x world x facade) in a K and an E universe, warm and (for a subset) first-use: record the fault-free trace, then one run per (index of a trapped call inside the operation, errno of that call's fault catalogue), one run per descriptor-creating call with EMFILE sticky from there on, one run per call with ENOMEM / EIO sticky from there on (every later call that can report that errno fails with it), and k in {1,2,15,16,17,20} consecutive EAGAINs on every openat2; non-trivial = the placed fault actually fired; distinct = distinct (universe, scenario, placement)",
         res,
         extra,
         vec![
